@@ -664,7 +664,8 @@ class SymStr:
                 return [(OK, ("enum", OKV, (("abs", "regex", concrete(p0)),)), st)]
         if c == "core::hint::must_use":
             return [(OK, args[0], st)]
-        return None
+        import siterlib
+        return siterlib.siter_intrinsic(I, c, args, st, n)
 
     def sstr_equal(self, a, b):
         if is_concrete(a) and is_concrete(b):
